@@ -344,6 +344,70 @@ func C07(c *Ctx) {
 	res := nilc.Check(nilc.Config{Prog: c.P, Engine: map[string]bool{"core": true, "match": true, "sio": true}, PairRule: true}, srcs)
 	c.reportNil("C07-R1", res)
 	c.R.Extra["nullable_sources"] = len(srcs)
+	// the multi-request host: a specification that could not be loaded is no specification.  The value half of every
+	// (pointer or interface, error) result of a call made in cmd/mcrew is nullable; the err == nil edge of the call
+	// vouches for it, a store into a cache does not, and a helper that hands it on with a nil error breaks the pair
+	// contract its callers rely on.
+	{
+		var msrcs []nilc.Source
+		nm := 0
+		var procFns []*ssa.Function
+		if proc := c.P.Func("cmd/mcrew", "Service", "Process"); proc != nil {
+			procFns = append(procFns, proc)
+			for _, h := range pkgClosure(proc) {
+				if h != proc && prog.PkgOf(h) == "cmd/mcrew" {
+					procFns = append(procFns, h)
+				}
+			}
+		}
+		for _, f := range procFns {
+			for _, g := range ssau.WithAnon(f) {
+				ssau.Instrs(g, func(in ssa.Instruction) {
+					cl, ok := in.(*ssa.Call)
+					if !ok {
+						return
+					}
+					sig := cl.Common().Signature()
+					if sig.Results().Len() != 2 || sig.Results().At(1).Type().String() != "error" {
+						return
+					}
+					switch sig.Results().At(0).Type().Underlying().(type) {
+					case *types.Pointer, *types.Interface:
+					default:
+						return
+					}
+					callees := c.P.Callees(cl)
+					inRepo := false
+					for _, h := range callees {
+						if prog.PkgOf(h) == "" || h.Blocks == nil {
+							continue
+						}
+						// ... that can answer nil there
+						for _, hb := range h.Blocks {
+							if ret, isRet := hb.Instrs[len(hb.Instrs)-1].(*ssa.Return); isRet && len(ret.Results) == 2 && ssau.IsNilConst(ret.Results[0]) {
+								inRepo = true
+							}
+						}
+					}
+					if !inRepo {
+						return
+					}
+					for _, r := range ssau.Referrers(cl) {
+						if ex, isEx := r.(*ssa.Extract); isEx && ex.Index == 0 {
+							nm++
+							msrcs = append(msrcs, nilc.Source{V: ex, Why: "a call that fails answers no value", Label: fmt.Sprintf("value of %s in %s #%d", pta.DescribeCall(cl), fname(g), nm), PairContract: true})
+						}
+					}
+				})
+			}
+		}
+		if nm == 0 {
+			c.R.Break("C07-R1: no (value, error) call that can answer nil found in the closure of cmd/mcrew Service.Process")
+		}
+		mres := nilc.Check(nilc.Config{Prog: c.P, Engine: map[string]bool{"cmd/mcrew": true}, PairRule: true}, msrcs)
+		c.reportNil("C07-R1", mres)
+		c.R.Extra["nullable_sources_mcrew"] = len(msrcs)
+	}
 
 	// writes into copies of absent bindings (Walk's and Step's error paths) rely on Copy never answering nil
 	c.freshMapResult("C07-R1", "Bindings.Copy: never nil", c.P.Func("match", "Bindings", "Copy"), "Bindings.Copy can return nil: Step and Walk extend the copy of absent (nil) bindings on their error paths, and an assignment to an entry of a nil map panics")
